@@ -16,7 +16,8 @@ META = dict(
                "Trusted: Coq kernel, Rust harness, std::fs.",
 )
 KNOWN_MAP = {"fail-panic": "fail-inconsistent-memory-panic", "fail-later-panic": "fail-inconsistent-memory-panic",
-             "fail-panic-outer": "fail-inconsistent-memory-panic", "fail-abort": "fail-inconsistent-memory-panic"}
+             "fail-panic-outer": "fail-inconsistent-memory-panic", "fail-abort": "fail-inconsistent-memory-panic",
+             "fail-later-hang": "fail-inconsistent-memory-hang"}
 
 
 def run_proc(tdir, w, seed, n, steps, maxk):
@@ -28,15 +29,16 @@ def run_proc(tdir, w, seed, n, steps, maxk):
     start, aborts = 0, 0
     while start < n and aborts < 20:
         p = subprocess.run([os.path.join(tdir, "hx_core"), "fail", "--seed", str(seed), "--n", str(n), "--steps", str(steps), "--maxk", str(maxk),
-                            "--start", str(start), "--out", w], stdout=subprocess.PIPE, stderr=subprocess.STDOUT, timeout=3000)
+                            "--start", str(start), "--out", w], stdout=subprocess.PIPE, stderr=subprocess.STDOUT, timeout=3000 if n <= 50 else 14000)
         if p.returncode == 0:
             break
         lines = read_lines(live)
         hist = [l for l in lines if l.startswith("#HISTORY")]
         last_run = [l for l in lines if l.startswith("#RUN")]
         cur = int(hist[-1].split()[1]) if hist else start
-        with open(live, "a") as f:
-            f.write("fail-abort (process aborted: panic while unwinding) %s\n" % (last_run[-1][5:] if last_run else ""))
+        if p.returncode != 3:     # 3 = the harness watchdog, which has written its own fail-later-hang line
+            with open(live, "a") as f:
+                f.write("fail-abort (process aborted: panic while unwinding) %s\n" % (last_run[-1][5:] if last_run else ""))
         start = cur + 1
         aborts += 1
     return [l for l in read_lines(live) if not l.startswith("#")]
